@@ -175,7 +175,7 @@ func globalStateRuleAs(c *Ctx, r *Report, rule string) {
 // not see that alias). Merging the source's sub-config into it is a write into the shared config
 // unless the two are known to differ: the merge must be dominated by an identity test.
 func capturedConfigRule(c *Ctx, r *Report) {
-	r.Rule("R11d", "while unpacking, a config found in the target is merged with a sub-config of the source only under an identity test that excludes old == source (a target filled by an earlier Unpack holds the source's own child)", 1)
+	r.Rule("R11d", "while unpacking, a config found in the target is merged with the source or a sub-config of it only under an identity test that excludes old == source (a target filled by an earlier Unpack holds the source's own child)", 2)
 	mergeFns := map[*ssa.Function]bool{}
 	for _, n := range []string{"mergeConfig", "mergeFieldConfig"} {
 		if f := c.TryFunc("", n); f != nil {
@@ -211,6 +211,11 @@ func capturedConfigRule(c *Ctx, r *Report) {
 						toReflect = true
 					}
 				}
+			}
+			// ... or `from` is the configuration this function was asked to read (reifyInto's own parameter):
+			// the caller, or an earlier Unpack through an inline *Config field, can have put it into the target
+			if p, isP := from.(*ssa.Parameter); isP && typeStr(p.Type()) == "*ucfg.Config" {
+				fromSub = true
 			}
 			if !fromSub || !toReflect {
 				continue
